@@ -472,7 +472,7 @@ def rule_build_canon(ctx):
         allowed = []
         extra = []
         for c in ins["catoms"]:
-            if c[0] == "callres" and c[-1] == "Ok?" and (c[1] in ("PurlShape::finish", st["S4ser"][0]["path"]) or c[1].endswith("try_get_typed")):
+            if c[0] == "callres" and c[-1] in ("Ok?", "Ok") and (c[1] in ("PurlShape::finish", st["S4ser"][0]["path"]) or c[1].endswith("try_get_typed")):
                 allowed.append(c)
             elif c[0] == "empty" and c[1] == ("Field", "arg1.parts.name") and c[2] is False:
                 allowed.append(c)
@@ -511,6 +511,8 @@ def rule_build_canon(ctx):
                     seen_some = seen_some
                 elif on_some and cls[0] == "ok" and cls[1][0] == "agg" and cls[1][1][2] == "Some" and cls[1][2][0][0] == "ok" and cls[1][2][0][1][0] == "call" and cls[1][2][0][1][1] == "std::convert::TryFrom::try_from":
                     seen_some = True
+                elif on_some and cls[0] == "err" and cls[1][0] == "err" and cls[1][1][0] == "call" and cls[1][1][1] == "std::convert::TryFrom::try_from":
+                    pass  # Some(Err(e)) => Err(e): the conversion's error handed on (what transpose does)
                 else:
                     good = False
             ok = good and seen_none and seen_some
